@@ -371,6 +371,21 @@ theorem C08_tree_sound_repaired_flag (En : Env ℝ) (S : LeafSem) (hS : LeafSoun
 example : hasProxR zEnv zTree = true := by simp [zTree, hasProxR, zEnv]
 example : hasProxR l1Env (.loss (.arr [0]) none (.leaf 0) (-1)) = false := by simp [hasProxR]
 
+/-- **complex diagonal `A`, whole arrays, every length** (companion of `C08_sqL2_diag_minimises`): on interleaved
+    complex data the array returned by the closed-form branch minimises
+    `Σ_j (c/2)·w_j·|a_j x_j − y_j|² + ½|x_j − v_j|²`, `c = 2·scale·lam` (`diagObjC`, i.e.
+    `lam·scale·Σ w|A x − y|² + ½‖x − v‖²`), among all arrays of the same length; weights `≥ 0` incl. zeros -/
+theorem C08_sqL2_diag_minimises_complex {K : Type} [Field K] [LinearOrder K] [IsStrictOrderedRing K] {scale lam : K}
+    (hc : 0 ≤ (1 + 1) * scale * lam) (w a y v x : List K) (hw : ∀ wi ∈ w, 0 ≤ wi) (ha : a.length = 2 * w.length)
+    (hy : y.length = 2 * w.length) (hv : v.length = 2 * w.length) (hx : x.length = 2 * w.length) :
+    diagObjC ((1 + 1) * scale * lam) w a y v (sqL2DiagProx true scale lam (some w) a y v)
+      ≤ diagObjC ((1 + 1) * scale * lam) w a y v x :=
+  sqL2DiagProx_minimises_cplx hc w a y v x hw ha hy hv hx
+
+-- a = [1+i, 2], w = [2, 0], y = [1, 3i], v = [i, 1−i], scale = 1/2, lam = 1 over ℚ
+example : sqL2DiagProx true (1 / 2 : ℚ) 1 (some [2, 0]) [1, 1, 2, 0] [1, 0, 0, 3] [0, 1, 1, -1] = [2 / 5, -1 / 5, 1, -1] := by
+  norm_num [sqL2DiagProx, emul, econj, cconjL, rmulL, rmulLc, cmulL, sqmags, pairs, edivR, edivRc]
+
 /-- the model of `Functional.conj_prox` is `v − lam · prox(v / lam, 1 / lam)` (so `C08_moreau` applies to
     it with `q` the value of the inner `prox` call) -/
 theorem C08_conj_prox_model {α : Type} [Add α] [Sub α] [Mul α] [Div α] [Neg α] [Zero α] [One α] [LT α] [DecidableLT α]
